@@ -89,7 +89,7 @@ class PCABook(Machine):
     REQUIRED_PROBES = ("branch_d_lt_n", "branch_d_ge_n", "float_selects_1", "float_selects_middle",
                        "float_selects_all", "trim_to_1", "trim_after_trim", "noop_setter", "copy_diverged",
                        "out_of_range_int", "out_of_range_float", "all_kept_reconstruct_exact",
-                       "object_backed", "uncentred", "max_n_components_at_build")
+                       "object_backed", "uncentred", "max_n_components_at_build", "tiny_data_scale", "huge_data_scale")
 
     @classmethod
     def swarm(cls, rng, tier):
@@ -106,6 +106,7 @@ class PCABook(Machine):
         n = rng.randint(3, 14)
         return {"kind": kind, "centred": centred, "n": n, "d": d, "seed": rng.getrandbits(32),
                 "inplace": rng.random() < 0.5, "max_n": rng.choice([0, 0, 0, 1, 2, 3, 5]),
+                "scale_exp": rng.choice([-6, -3, 0, 0, 0, 3, 6]),
                 "steps": rng.randint(3, 16 if tier == "quick" else 40)}
 
     @classmethod
@@ -148,7 +149,13 @@ class PCABook(Machine):
         self.d = d
         n = cfg["n"]
         self.centred = cfg["centred"]
-        self.X = make_data(cfg["seed"], n, d, self.centred)
+        self.X = make_data(cfg["seed"], n, d, self.centred) * 10.0 ** cfg.get("scale_exp", 0)
+        self.scale = float(np.abs(self.X).max())
+        if cfg.get("scale_exp", 0) < 0:
+            ctx0 = self.ctx
+            ctx0.probe("tiny_data_scale")
+        elif cfg.get("scale_exp", 0) > 0:
+            self.ctx.probe("huge_data_scale")
         Xc = self.X - self.X.mean(0) if self.centred else self.X
         self.Xc = Xc
         s = np.linalg.svd(Xc, compute_uv=False)
@@ -362,7 +369,7 @@ class PCABook(Machine):
         mu = w.vec(m.mean())
         exp_mu = self.X.mean(0) if self.centred else np.zeros(d)
         err = float(np.abs(mu - exp_mu).max())
-        ctx.require(err <= 1e-9 * (1 + np.abs(exp_mu).max()), "identities", "mean_wrong", lambda: "err %.3g" % err)
+        ctx.require(err <= 1e-9 * self.scale, "identities", "mean_wrong", lambda: "err %.3g" % err)
         # fresh model with that many components
         fresh = w.build(self.X, self.centred, False, k)
         fresh.n_active_components = a
@@ -383,18 +390,18 @@ class PCABook(Machine):
             ctx.require(ok, "same_as_fresh", name, lambda: "%s: %r vs fresh %r (k=%d a=%d)" % (name, va, vb, k, a))
         # projections on random vectors
         g = rs(self.cfg["seed"] ^ (k * 131 + a * 17 + self.ctx.steps))
-        x = self.X[int(g.randint(self.X.shape[0]))] + g.randn(d)
+        x = self.X[int(g.randint(self.X.shape[0]))] + g.randn(d) * self.scale * 0.05
         xo = w.obj(x)
         wts = g.randn(a) * np.sqrt(ev)
         inst = m.instance(wts.copy())
         back = np.asarray(m.project(inst), dtype=float)
-        err = float(np.abs(back - wts).max() / (1 + np.abs(wts).max()))
+        err = float(np.abs(back - wts).max() / (np.sqrt(lam[0]) + np.abs(wts).max()))
         ctx.err("project_instance", err)
         ctx.require(err < 1e-8, "identities", "project_of_instance_is_not_weights", lambda: "err %.3g" % err)
         rec = m.reconstruct(xo)
         rec2 = m.reconstruct(rec)
         rv, rv2 = w.vec(rec), w.vec(rec2)
-        sc = 1 + np.abs(x).max()
+        sc = self.scale
         ctx.require(float(np.abs(rv2 - rv).max()) < 1e-8 * sc, "identities", "reconstruct_not_idempotent")
         resid = x - rv
         ctx.require(float(np.abs(C @ resid).max()) < 1e-8 * sc, "identities", "reconstruction_residual_not_orthogonal",
@@ -408,7 +415,7 @@ class PCABook(Machine):
         if a == self.r and k == self.r:
             ctx.probe("all_kept_reconstruct_exact")
             R = np.vstack([w.vec(m.reconstruct(w.obj(s))) for s in self.X])
-            err = float(np.abs(R - self.X).max() / (1 + np.abs(self.X).max()))
+            err = float(np.abs(R - self.X).max() / self.scale)
             ctx.err("training_reconstruction", err)
             ctx.require(err < 1e-8, "identities", "training_sample_not_reconstructed", lambda: "err %.3g" % err)
         ctx.out("chk", k, a)
